@@ -219,6 +219,19 @@ static std::vector<double> rng_script(int seed) {
     return v;
 }
 
+//draws of a thread that never seeds: must be the default-engine sequence, whatever other threads seed meanwhile
+static std::vector<double> unseeded_script() {
+    std::vector<double> v;
+    const arr_real a = dl::randn(5);
+    for (int i = 0; i < a.size(); ++i) {
+        v.push_back(a[i]);
+    }
+    v.push_back(dl::rand());
+    v.push_back(double(dl::randi({1, 1000})));
+    v.push_back(dl::randn());
+    return v;
+}
+
 struct ThreadResult
 {
     uint64_t calls{0};
@@ -240,6 +253,12 @@ int main(int argc, char** argv) {
     const int iters = int((thorough ? 1500 : 1000) * scale);
     std::map<std::string, uint64_t> overlaps_by_kind;
     std::map<std::string, uint64_t> calls_by_kind;
+    //reference for never-seeding threads: first draws of a fresh thread in a process where nobody has seeded yet
+    std::vector<double> default_seq;
+    {
+        std::thread t([&] { default_seq = unseeded_script(); });
+        t.join();
+    }
 
     for (int round = 0; round < rounds; ++round) {
         if (!vh::mine(round)) {
@@ -261,6 +280,7 @@ int main(int argc, char** argv) {
             rng_expected[t] = rng_script(rng_seed[t]);
         }
         std::vector<ThreadResult> res(T);
+        std::atomic<int> seeded_by_someone{0};
         Barrier bar(T + 1);
         std::vector<std::thread> th;
         const uint64_t rseed = r.next();
@@ -268,9 +288,32 @@ int main(int argc, char** argv) {
             th.emplace_back([&, t] {
                 vh::Rng tr(rseed + 7919ULL * uint64_t(t));
                 ThreadResult& out = res[t];
+                const bool never_seeds = (T >= 3) && (t % 4 == 3);
                 bar.wait();
+                if (t == 0) {
+                    //make sure a seed other than the default has been set somewhere before the never-seeding threads draw
+                    (void)rng_script(rng_seed[t] + 1);
+                    seeded_by_someone.store(1, std::memory_order_release);
+                }
+                if (never_seeds) {
+                    while (seeded_by_someone.load(std::memory_order_acquire) == 0) {
+                        std::this_thread::yield();
+                    }
+                    const auto got = unseeded_script();
+                    ++out.calls;
+                    ++out.calls_by_kind["unseeded_first_draws"];
+                    if (got != default_seq) {
+                        ++out.rng_mismatch;
+                        if (out.first.empty()) {
+                            out.first = "a thread that never called rng() did not observe the default generator sequence after another thread had seeded";
+                        }
+                    }
+                }
                 for (int it = 0; it < iters; ++it) {
-                    const uint64_t sel = tr.below(100);
+                    uint64_t sel = tr.below(100);
+                    if (never_seeds && sel >= 92) {
+                        sel = sel % 92;   //this thread never touches the generator again
+                    }
                     try {
                         if (sel < 60) {
                             //shared plan object, concurrently with others
